@@ -215,6 +215,104 @@ theorem C08_channel (p : Policy) (r : Req) (w nb : Nat) (hs : p.flt.Strict) (hde
   simp only [hany, hnm, true_and, and_true] at hlen hseg
   exact ⟨by simpa using hseg, by simpa using hlen⟩
 
+/-- whatever `validate_onchain_tx` answers other than an error or a panic, all its checks that do not
+    concern destinations passed -/
+theorem validate_pass (p : Policy) (r : Req) (w : Nat) (hs : p.flt.Strict) (res : Res)
+    (h : validateOnchain p r w = res) (hres : (∃ nb, res = .ok nb) ∨ (∃ l, res = .unknown l)) :
+    NonDestChecks p r := by
+  have hne : ∀ t, res ≠ .err t := by rintro t rfl; rcases hres with ⟨_, h'⟩ | ⟨_, h'⟩ <;> cases h'
+  have hnp : res ≠ .panic := by rintro rfl; rcases hres with ⟨_, h'⟩ | ⟨_, h'⟩ <;> cases h'
+  unfold validateOnchain at h
+  split at h
+  · exact absurd h.symm (hne _)
+  rename_i hver
+  split at h
+  · exact absurd h.symm (hne _)
+  rename_i hsize
+  split at h
+  · exact absurd h.symm hnp
+  rename_i hlen
+  split at h
+  · exact absurd h.symm (hne _)
+  rename_i hseg
+  split at h
+  · exact absurd h.symm hnp
+  · exact absurd h.symm (hne _)
+  · rename_i sumOut unk hloop
+    obtain ⟨_, _, e3⟩ := outLoop_done p.flt hs _ _ _ _ _ _ _ hloop
+    refine ⟨?_, ?_, ?_, e3⟩
+    · intro hf; simp only [hf, and_true] at hver; exact Decidable.of_not_not hver
+    · intro hf; simp only [hf, and_true] at hsize; exact Nat.le_of_not_lt hsize
+    · intro hany
+      have hnm := hs.1
+      simp only [hany, hnm, true_and, and_true] at hlen hseg
+      exact ⟨by simpa using hseg, by simpa using hlen⟩
+
+theorem checkOnchain_res (p : Policy) (vc vc' : VC) (now : Nat) (r : Req) (res : Res)
+    (h : checkOnchain p vc now r = (vc', res)) (hres : (∃ nb, res = .ok nb) ∨ (∃ l, res = .unknown l)) :
+    ∃ w, validateOnchain p r w = res := by
+  unfold checkOnchain at h
+  split at h
+  · cases h; rcases hres with ⟨_, h'⟩ | ⟨_, h'⟩ <;> cases h'
+  · rename_i w _
+    refine ⟨w, ?_⟩
+    split at h
+    · rename_i nb hv
+      split at h
+      · cases h; rcases hres with ⟨_, h'⟩ | ⟨_, h'⟩ <;> cases h'
+      · split at h
+        · cases h; rcases hres with ⟨_, h'⟩ | ⟨_, h'⟩ <;> cases h'
+        · cases h; exact hv
+        · cases h
+          split
+          · rename_i hf
+            simp only [hf, if_true] at hres
+            rcases hres with ⟨_, h'⟩ | ⟨_, h'⟩ <;> cases h'
+          · exact hv
+    · cases h; rfl
+
+/-- **C08 (flow)**: if the whole flow ends in "sign" — directly, or after the approver accepted reported
+    unknown destinations — every check that does not concern destinations passed. -/
+theorem C08_flow (p : Policy) (vc vc' : VC) (now : Nat) (r : Req) (approve : Bool) (hs : p.flt.Strict)
+    (h : flowOnchain p vc now r approve = (vc', .signed)) :
+    NonDestChecks p r ∧
+    (∀ o ∈ r.outs, ∀ c, classify o = .channel c →
+      ChanOk o c ∧ r.segwit.all id = true ∧ r.nInputs = r.segwit.length) := by
+  unfold flowOnchain at h
+  have hpass : NonDestChecks p r := by
+    cases hc : checkOnchain p vc now r with
+    | mk v res =>
+      rw [hc] at h
+      cases res with
+      | ok nb =>
+        obtain ⟨w, hv⟩ := checkOnchain_res p vc v now r _ hc (Or.inl ⟨nb, rfl⟩)
+        exact validate_pass p r w hs _ hv (Or.inl ⟨nb, rfl⟩)
+      | unknown l =>
+        obtain ⟨w, hv⟩ := checkOnchain_res p vc v now r _ hc (Or.inr ⟨l, rfl⟩)
+        exact validate_pass p r w hs _ hv (Or.inr ⟨l, rfl⟩)
+      | err t => simp at h
+      | panic => simp at h
+  refine ⟨hpass, ?_⟩
+  intro o ho c hc
+  obtain ⟨_, _, hseg, hall⟩ := hpass
+  have hany : anyChannel r.outs = true := by
+    unfold anyChannel
+    rw [List.any_eq_true]
+    exact ⟨o, ho, by rw [classify_channel_chan o c hc]; rfl⟩
+  rcases hall o ho with ha | hu
+  · unfold Accepted at ha
+    rw [hc] at ha
+    exact ⟨ha, hseg hany⟩
+  · rw [hc] at hu; cases hu
+
+/-- **C08 (unknown ⇒ everything else was checked)**: an `UnknownDestinations` answer implies that every check
+    which does not concern destinations passed (version, size, segwit inputs when a channel is funded, and every
+    output that is not reported is wallet / allowlisted / a validated channel output) — so an approval of the
+    reported destinations cannot waive anything else. -/
+theorem C08_unknown_checks (p : Policy) (r : Req) (w : Nat) (l : List Nat) (hs : p.flt.Strict)
+    (h : validateOnchain p r w = .unknown l) : NonDestChecks p r :=
+  validate_pass p r w hs _ h (Or.inr ⟨l, rfl⟩)
+
 /-! ### Fee velocity (via the C12 theorems) -/
 
 /-- the approved-fee log after one check -/
@@ -373,5 +471,17 @@ example : validateOnchain ⟨333333, false, Filter.default⟩
 example : validateOnchain ⟨333333, false, Filter.default⟩
     ⟨2, 100, 437, 1, [true], [1876901000], [], 1, [⟨1000, 1, some true, false, .no, none⟩]⟩ 437 = .err .feeRange := by
   decide
+
+/-- the flow: funding a validated channel + an unknown destination from a segwit input is reported and, once
+    the approver accepts, signed; the same with a non-segwit input is refused whatever the approver says -/
+example :
+    (flowOnchain ⟨333333, false, Filter.default⟩ (VC.ofSpec ⟨1000000000, .daily⟩) 1600000000
+      ⟨2, 200, 800, 1, [true], [3501000], [], 2,
+        [⟨3000000, 0, some false, false, .no, some ⟨3000000, true, true, 0, 1⟩⟩,
+         ⟨500000, 0, some false, false, .no, none⟩]⟩ true).2 = .signed
+  ∧ (flowOnchain ⟨333333, false, Filter.default⟩ (VC.ofSpec ⟨1000000000, .daily⟩) 1600000000
+      ⟨2, 200, 800, 1, [false], [3501000], [], 2,
+        [⟨3000000, 0, some false, false, .no, some ⟨3000000, true, true, 0, 1⟩⟩,
+         ⟨500000, 0, some false, false, .no, none⟩]⟩ true).2 = .refused .nonMalleable := by decide
 
 end VlsModel.Props.C08
